@@ -366,6 +366,7 @@ fn main() {
                     ctx.violation("links", r["signature"].as_str().unwrap(), r["detail"].clone());
                 }
             }
+            "wt-links-reported" => asys::wtlinks::replay(&ctx, r),
             "loom" => {
                 let exe = std::env::current_exe().unwrap();
                 let o = std::process::Command::new(exe).arg("--loom-scenario").arg(r["detail"]["scenario"].as_str().unwrap()).env("VERIF_LOOM_BOUND", "4").output().unwrap();
@@ -378,6 +379,9 @@ fn main() {
         ctx.finish("model_checking", "replay");
     }
     links_leg(&ctx, "links", None);
+    // the real write task alone with an aggregate reporter: the reported count against the links
+    // the remotes actually hold, including link requests from remotes the task does not know
+    asys::wtlinks::run_leg(&ctx, "wt-links-reported");
     loom_leg(&ctx);
     as_leg(&ctx);
     ctx.assume("reporters are registered together with their lane, i.e. before the lane can be linked (as the write task does)");
